@@ -64,7 +64,10 @@ class PermutingExperimenter(experimenter.Experimenter):
             ' Permuting continuous parameters is not supported.'
         )
 
-      permutation_list = self._rng.permuted(parameter.feasible_values)
+      # tolist(): native Python values (ParameterValue rejects np.int64).
+      permutation_list = self._rng.permuted(
+          parameter.feasible_values
+      ).tolist()
       permutation_dict = {
           a: b for a, b in zip(parameter.feasible_values, permutation_list)
       }
